@@ -552,8 +552,8 @@ class Node:
         This is called *before* the tree is modified, so an invalid argument
         does not leave a half-added or half-moved node behind.
         """
-        if before is None:
-            return None
+        if before is None or before is False:
+            return None  # append (note that `isinstance(False, int)` is true)
         if before is True:
             return 0  # prepend
         if isinstance(before, int):
